@@ -284,6 +284,10 @@ func genQual(r *core.RNG) qualSpec {
 		case 1:
 			return qualSpec{n, fmt.Sprint(r.Range(1, 99))}
 		}
+		if r.Chance(1, 6) {
+			// several lines, one of which may look like the start of a qualifier
+			return qualSpec{n, genText(r, 1, 3) + "\n" + []string{"/", "", "x"}[r.Intn(3)] + genText(r, 1, 3)}
+		}
 		return qualSpec{n, genQuotedText(r, 1, 4)}
 	}
 	n := quotedNames[r.Intn(len(quotedNames))]
